@@ -68,7 +68,12 @@ func newSinks() *sinks {
 				if err != nil {
 					return
 				}
-				s.hits <- hit{i, append([]byte{}, buf[:n]...)}
+				if tap := sinkTap; tap != nil { // a ke.starget case is running: its observer gets the datagram
+					la := c.LocalAddr().(*net.UDPAddr)
+					tap(la.IP.String(), la.Port, append([]byte{}, buf[:n]...))
+				} else {
+					s.hits <- hit{i, append([]byte{}, buf[:n]...)}
+				}
 				// two datagrams the client cannot use: it gives up at once instead of waiting
 				c.WriteToUDP([]byte{1, 2, 3}, from)
 				c.WriteToUDP([]byte{4, 5, 6}, from)
@@ -96,6 +101,9 @@ func cookieOf(pkt []byte) []byte {
 }
 
 var theSinks *sinks
+
+// sinkTap, when set, receives what arrives at the sinks instead of their own channel
+var sinkTap func(host string, port int, data []byte)
 
 // runTarget: one IP client with NTS, a sequence of measurements; every measurement needs a new
 // key exchange (one cookie is issued, no reply ever stores another one) that names a server
@@ -188,7 +196,8 @@ var (
 	ownProvider *ntske.Provider
 )
 
-const ownNTPPort = 123
+// not the client's default (123): the Port record of newNTSKEMsg has to arrive and be used
+const ownNTPPort = 4123
 
 func startOwn() {
 	ownOnce.Do(func() {
